@@ -70,9 +70,10 @@ func HMacReceiver() {
 }
 
 // HMacReceiverForeignOrder (C15): well-formed packets of an independent encoder in any attribute
-// order.  Params: first attribute index, second attribute index (both in VAkaAttrs, MAC is added), key length.
+// order.  Params: first attribute index, second attribute index (both in VAkaAttrs, MAC is added), key
+// length, value tier (-1 fixed sizes, 0 the accepted sizes of each attribute including empty ones).
 func HMacReceiverForeignOrder() {
-	i, j, kl := vr.Param(0), vr.Param(1), vr.Param(2)
+	i, j, kl, vt := vr.Param(0), vr.Param(1), vr.Param(2), vr.Param(3)
 	key := vr.Bytes(kl)
 	var attrs []VRefAkaAttr
 	for _, k := range []int{i, j} {
@@ -80,7 +81,7 @@ func HMacReceiverForeignOrder() {
 		if t == AT_MAC {
 			continue
 		}
-		attrs = append(attrs, VRefAkaAttr{Type: uint8(t), Value: VGenAkaValue(t, -1)})
+		attrs = append(attrs, VRefAkaAttr{Type: uint8(t), Value: VGenAkaValue(t, vt)})
 	}
 	// the sender places AT_MAC at an arbitrary position
 	pos := vr.IntIn(0, len(attrs))
